@@ -31,12 +31,14 @@ def data(h, name, cplx, N=None, nsym='default'):
 
 
 def tapers_const(h, N, k=2):
-    """fixed (concrete) orthonormal-ish tapers and eigenvalues entering as constants"""
+    """fixed tapers and eigenvalues entering as constants (small dyadic rationals so that exact arithmetic stays cheap;
+    the caller-supplied tapers need not be Slepian sequences for the clauses checked with them)"""
     t = np.zeros((N, k))
-    for i in range(k):
-        for m in range(N):
-            t[m, i] = np.sin(np.pi * (i + 1) * (m + 1) / (N + 1))
-        t[:, i] /= np.sqrt(np.sum(t[:, i] ** 2))
+    for m in range(N):
+        d = min(m, N - 1 - m)
+        t[m, 0] = 0.5 + 0.25 * d
+        if k > 1:
+            t[m, 1] = 0.5 * (1 if 2 * m < N - 1 else (-1 if 2 * m > N - 1 else 0))
     lam = np.array([0.9375, 0.75][:k])
     return t, lam
 
